@@ -313,12 +313,70 @@ package updown
 //@   ensures [cap] len(sent(cOut)[0].same.catchment) + len(sent(cOut)[0].up.catchment) + len(sent(cOut)[0].down.catchment) + len(sent(cOut)[0].side.catchment) <= ite(sizeArray[0] == 2147483647 || sizeArray[1] == 2147483647 || sizeArray[2] == 2147483647 || sizeArray[3] == 2147483647, 2147483647, sizeArray[0] + sizeArray[1] + sizeArray[2] + sizeArray[3])
 
 //@ # C18: validation prefixes of the entry points
-//@ func List prefix
+//@ func List spawns
 //@   modifies everything
 //@   after if#2: assert [c18.oneref] len(temp) == 1
-//@ func TopRanking prefix
+//@   # the stage-completion loops (spawns mode, see closest.Closest): an error received from any stage is returned; a nil
+//@   # return means none was received and the reader, the workers and the writer all signalled completion
+//@   after assign:cWriteDone#1: assume [env.errors] forallint(k, envat(cErr, k) != nil)
+//@   ghost gErrSeen bool = false
+//@   before call:getLines#1: assert [c10.worker] sameslice(arg(0), refSeq) && arg(1) == cFR && arg(2) == cudLs && arg(3) == cErr
+//@   before call:writeOutput#1: assert [c10.writer] arg(0) == out && arg(1) == cudLs && arg(2) == cErr && arg(3) == cWriteDone
+//@   before call:ReadEncodeAlignment#1: assert [c10.reader] arg(0) == alignment && arg(1) == false && arg(2) == cFR && arg(3) == cErr && arg(4) == cFRDone
+//@   loop 1:
+//@     invariant !gErrSeen && len(recvd(cErr)) == 0 && len(recvd(cFRDone)) == 0 && len(recvd(cudLsDone)) == 0 && len(recvd(cWriteDone)) == 0
+//@   loop 2:
+//@     invariant !gErrSeen && len(recvd(cErr)) == 0 && len(recvd(cFRDone)) == 0 && len(recvd(cudLsDone)) == 0 && len(recvd(cWriteDone)) == 0
+//@   loop 3:
+//@     invariant !gErrSeen && len(recvd(cErr)) == 0 && 0 <= n && n <= 1 && len(recvd(cFRDone)) + n == 1 && len(recvd(cudLsDone)) == 0 && len(recvd(cWriteDone)) == 0
+//@   loop 4:
+//@     invariant !gErrSeen && len(recvd(cErr)) == 0 && len(recvd(cFRDone)) == 1 && 0 <= n && n <= 1 && len(recvd(cudLsDone)) + n == 1 && len(recvd(cWriteDone)) == 0
+//@   loop 5:
+//@     invariant !gErrSeen && len(recvd(cErr)) == 0 && len(recvd(cFRDone)) == 1 && len(recvd(cudLsDone)) == 1 && 0 <= n && n <= 1 && len(recvd(cWriteDone)) + n == 1
+//@   before return#3: do gErrSeen = true
+//@   before return#4: do gErrSeen = true
+//@   before return#5: do gErrSeen = true
+//@   before return#3: assert [c18.error.first] len(recvd(cErr)) == 1 && err == recvd(cErr)[0]
+//@   before return#4: assert [c18.error.first] len(recvd(cErr)) == 1 && err == recvd(cErr)[0]
+//@   before return#5: assert [c18.error.first] len(recvd(cErr)) == 1 && err == recvd(cErr)[0]
+//@   before return#6: assert [c18.nil.means.clean] len(recvd(cErr)) == 0 && len(recvd(cFRDone)) == 1 && len(recvd(cudLsDone)) == 1 && len(recvd(cWriteDone)) == 1
+//@   ensures [c18.error.returned] implies(gErrSeen, result != nil)
+//@ # the whole orchestration of `updown topranking` in spawns mode (see closest.Closest for the model and for what the two
+//@ # `assume` clauses stand on: findUpDownCatchment[PushDistance]'s post-condition sent(cOut)[0].qidx == q.idx with exactly
+//@ # one send, the query readers' idx post-conditions and the worker wiring proved in splitInput). Proved: the validated
+//@ # options reach the fan-out stage unchanged; for every arrival order of the results, query k's catchment sits in slot k
+//@ # of the table handed to the writer the --table flag selects; an error received from any stage or returned by the
+//@ # writer is returned to the caller.
+//@ spec resultOfTR(k int) int uninterpreted
+//@ func TopRanking spawns
 //@   modifies everything
 //@   after if#1: assert [c18.args] err == nil
+//@   after if#4: assert [c18.oneref] len(temp) == 1
+//@   after assign:cSplitDone#1: assume [env.results] forall(k, 0, nQ, 0 <= resultOfTR(k) && resultOfTR(k) < nQ && envat(cResults, resultOfTR(k)).qidx == k) && forall(j, 0, nQ, 0 <= envat(cResults, j).qidx && envat(cResults, j).qidx < nQ && resultOfTR(envat(cResults, j).qidx) == j)
+//@   after assign:cSplitDone#1: assume [env.errors] forallint(k, envat(cErr, k) != nil)
+//@   before call:splitInput#1: assert [c08.options] sameslice(arg(0), queries) && sameslice(arg(1), ignoreArray) && arg(2) == sizeArray && arg(3) == nofill && arg(4) == distArray && (arg(5) == threshpair || (isnan(arg(5)) && isnan(threshpair))) && arg(6) == threshtarg && arg(7) == distpush && arg(8) == cudL && arg(9) == cResults
+//@   before call:readCSVToUDLChan#1: assert [c09.target.csv] t_in_type == "csv" && arg(0) == target && arg(1) == cudL
+//@   before call:readFastaToUDLChan#1: assert [c09.target.fasta] t_in_type == "fasta" && arg(0) == target && sameslice(arg(1), refSeq) && arg(2) == cudL
+//@   loop 1:
+//@     invariant !gErrSeen && !gWriteFailed && len(recvd(cErr)) == 0 && len(recvd(cResults)) == 0 && nQ == len(queries) && len(QResultsArray) == nQ && freshslice(QResultsArray)
+//@   loop 2:
+//@     invariant !gErrSeen && !gWriteFailed && len(recvd(cErr)) == 0 && len(recvd(cResults)) == 0 && nQ == len(queries) && len(QResultsArray) == nQ && freshslice(QResultsArray)
+//@   loop 3:
+//@     invariant !gErrSeen && !gWriteFailed && 0 <= i && i <= nQ && len(recvd(cErr)) == 0 && len(recvd(cResults)) == i && nQ == len(queries) && len(QResultsArray) == nQ && freshslice(QResultsArray)
+//@     invariant [c12.slots] forall(j, 0, i, QResultsArray[envat(cResults, j).qidx] == envat(cResults, j))
+//@   before call:writeUpdownTable#1: assert [c12.slots] table && arg(0) == out && forall(k, 0, nQ, QResultsArray[k] == envat(cResults, resultOfTR(k)) && QResultsArray[k].qidx == k)
+//@   before call:writeUpDownCatchment#1: assert [c12.slots] !table && arg(0) == out && forall(k, 0, nQ, QResultsArray[k] == envat(cResults, resultOfTR(k)) && QResultsArray[k].qidx == k)
+//@   ghost gErrSeen bool = false
+//@   ghost gWriteFailed bool = false
+//@   before return#6: do gErrSeen = true
+//@   before return#7: do gErrSeen = true
+//@   before return#6: assert [c18.error.first] len(recvd(cErr)) == 1 && err == recvd(cErr)[0]
+//@   before return#7: assert [c18.error.first] len(recvd(cErr)) == 1 && err == recvd(cErr)[0]
+//@   after call:writeUpdownTable#1: do gWriteFailed = err != nil
+//@   after call:writeUpDownCatchment#1: do gWriteFailed = err != nil
+//@   before return#9: assert [c18.nil.means.clean] len(recvd(cErr)) == 0 && len(recvd(cResults)) == nQ
+//@   ensures [c18.error.returned] implies(gErrSeen, result != nil)
+//@   ensures [c19.writer.error.returned] implies(gWriteFailed, result != nil)
 
 //@ # C08 --dist-push: the k-nearest-distances bins.
 //@ func getMaxKey
